@@ -46,7 +46,8 @@ class StopScenario(cmdscn.CmdScenario):
 
     def extra_state(self):
         return [super(StopScenario, self).extra_state(),
-                sorted(env.W.extra['stopped'].items())]
+                sorted(env.W.extra['stopped'].items()),
+                env.W.extra.get('pending_stop')]
 
     def check_step(self, pre, post, choice, ctx):
         v = []
@@ -57,7 +58,35 @@ class StopScenario(cmdscn.CmdScenario):
             if not is_mistral and 'is already completed' not in text:
                 v.append('engine entry point failed with undeclared error '
                          '%s at %s: %s' % (cls, where, text))
-        if tag.startswith('stop'):
+        busy = any(not a.done and a.kind == 'msg' and
+                   '.stop_workflow' in a.desc for a in env.W.acts)
+        pend = env.W.extra.get('pending_stop')
+        if tag.startswith('stop') and busy:
+            # the command's transaction is explored in several steps
+            # (overlap mode): it is judged when it has finished
+            tgt = env.W.extra.get('last_stop_target')
+            if tgt and tgt in pre_w:
+                env.W.extra['pending_stop'] = [tag.split(':')[1], tgt,
+                                               pre_w[tgt]['state']]
+        elif pend and not busy:
+            env.W.extra['pending_stop'] = None
+            want, tgt, was = pend
+            b = post_w.get(tgt)
+            if b is not None and was not in FINAL:
+                if b['state'] not in FINAL:
+                    v.append('stop(%s) acknowledged but execution %s is %s'
+                             % (want, b['name'], b['state']))
+                elif b['state'] == want and 'stopped-by-operator' in str(
+                        b['state_info']):
+                    env.W.extra['stopped'][tgt] = want
+                    if want == 'CANCELLED':
+                        for d in descendants(post, tgt):
+                            if post_w[d]['state'] not in FINAL:
+                                v.append('cancel acknowledged but '
+                                         'sub-workflow %s below it is %s'
+                                         % (post_w[d]['name'],
+                                            post_w[d]['state']))
+        elif tag.startswith('stop'):
             want = tag.split(':')[1]
             # the command addressed the execution whose state changed, or an
             # already finished one
@@ -207,6 +236,12 @@ def scenarios(tier):
                                    results=res, menu=menu, max_cmds=1)
                 jobs.append((scn, 0 if quick else 1,
                              40 if quick else 1200, 1))
+                if pname in ('seq3', 'subwf', 'items_subwf'):
+                    # the stop lands inside a transaction of the engine
+                    # that has only read so far
+                    jobs.append((common.variant(scn, '/overlap', rp=True),
+                                 0 if quick else 1, 40 if quick else 1200,
+                                 1))
         # the same stop repeated on the (then finished) execution
         if pname in ('seq3', 'subwf', 'late_bad_publish'):
             res = assigns[0]
